@@ -2615,3 +2615,87 @@ def restore_inlined_helpers(tree: ast.Module, ref_mod: dict) -> None:
             else:
                 container.body.append(H)
     ast.fix_missing_locations(tree)
+
+
+def restore_flag_masks(tree: ast.Module, ref_mod: dict) -> bool:
+    """A private two-valued attribute that the reference class keeps as a *mask* (`self.a = 0`, `self.a ^= K`, `x |= self.a`,
+    `e & K != self.a`) and the current class keeps as a *bool* (`self.a = False`, `self.a = not self.a`, `if self.a: x |= K`,
+    `K if self.a else 0`, `bool(e & K) != self.a`) denotes the same state under the bijection False <-> 0, True <-> K.  When EVERY
+    occurrence of the attribute in the class is one of those bool forms (with the reference's own K), the class is rewritten to the
+    mask form; a single occurrence of another shape leaves everything as it is (the rules then see the code as written)."""
+    import re as _re
+    want = {}
+    for qn, f_ in ref_mod.get("funcs", {}).items():
+        if "." not in qn:
+            continue
+        for a_, k_ in _re.findall(r"self\.(_[A-Za-z_0-9]*) \^= ([A-Z_][A-Z_0-9]*)\b", f_.get("src", "")):
+            want.setdefault(qn.split(".")[0], {})[a_] = k_
+    changed = False
+    for cls in [n for n in tree.body if isinstance(n, ast.ClassDef) and n.name in want]:
+        for attr, K in want[cls.name].items():
+            def is_a(n):
+                return isinstance(n, ast.Attribute) and n.attr == attr and isinstance(n.value, ast.Name) and n.value.id == "self"
+
+            def is_k(n):
+                return isinstance(n, ast.Name) and n.id == K
+            occ = [n for n in ast.walk(cls) if is_a(n)]
+            if not occ or any(isinstance(n, ast.AugAssign) and is_a(n.target) for n in ast.walk(cls)):
+                continue
+            covered = set()
+            plan = []          # (kind, node)
+            for n in ast.walk(cls):
+                if isinstance(n, ast.Assign) and len(n.targets) == 1 and is_a(n.targets[0]):
+                    v = n.value
+                    if isinstance(v, ast.Constant) and v.value is False or isinstance(v, ast.Constant) and v.value is True:
+                        plan.append(("const", n)); covered.add(id(n.targets[0]))
+                    elif isinstance(v, ast.UnaryOp) and isinstance(v.op, ast.Not) and is_a(v.operand):
+                        plan.append(("flip", n)); covered |= {id(n.targets[0]), id(v.operand)}
+                elif isinstance(n, ast.If) and is_a(n.test) and not n.orelse and len(n.body) == 1 and isinstance(n.body[0], ast.AugAssign) \
+                        and isinstance(n.body[0].op, ast.BitOr) and is_k(n.body[0].value):
+                    plan.append(("ifor", n)); covered.add(id(n.test))
+                elif isinstance(n, ast.IfExp) and is_a(n.test) and is_k(n.body) and isinstance(n.orelse, ast.Constant) and n.orelse.value == 0 and n.orelse.value is not False:
+                    plan.append(("ifexp", n)); covered.add(id(n.test))
+                elif isinstance(n, ast.Compare) and len(n.ops) == 1 and isinstance(n.ops[0], (ast.Eq, ast.NotEq)):
+                    for x, y in ((n.left, n.comparators[0]), (n.comparators[0], n.left)):
+                        if is_a(y) and isinstance(x, ast.Call) and isinstance(x.func, ast.Name) and x.func.id == "bool" and len(x.args) == 1 and not x.keywords \
+                                and isinstance(x.args[0], ast.BinOp) and isinstance(x.args[0].op, ast.BitAnd) and (is_k(x.args[0].left) or is_k(x.args[0].right)):
+                            plan.append(("cmp", n)); covered.add(id(y))
+            if {id(o) for o in occ} != covered:
+                continue
+
+            class _T(ast.NodeTransformer):
+                def visit_Assign(self, n):
+                    self.generic_visit(n)
+                    for kind, m in plan:
+                        if m is n and kind == "const":
+                            n.value = ast.Name(id=K, ctx=ast.Load()) if n.value.value is True else ast.Constant(value=0)
+                        elif m is n and kind == "flip":
+                            return ast.copy_location(ast.AugAssign(target=n.targets[0], op=ast.BitXor(), value=ast.Name(id=K, ctx=ast.Load())), n)
+                    return n
+
+                def visit_If(self, n):
+                    self.generic_visit(n)
+                    if any(m is n and kind == "ifor" for kind, m in plan):
+                        st = n.body[0]
+                        st.value = ast.Attribute(value=ast.Name(id="self", ctx=ast.Load()), attr=attr, ctx=ast.Load())
+                        return ast.copy_location(st, n)
+                    return n
+
+                def visit_IfExp(self, n):
+                    self.generic_visit(n)
+                    if any(m is n and kind == "ifexp" for kind, m in plan):
+                        return ast.copy_location(ast.Attribute(value=ast.Name(id="self", ctx=ast.Load()), attr=attr, ctx=ast.Load()), n)
+                    return n
+
+                def visit_Compare(self, n):
+                    self.generic_visit(n)
+                    if any(m is n and kind == "cmp" for kind, m in plan):
+                        if isinstance(n.left, ast.Call):
+                            n.left = n.left.args[0]
+                        else:
+                            n.comparators[0] = n.comparators[0].args[0]
+                    return n
+            _T().visit(cls)
+            ast.fix_missing_locations(cls)
+            changed = True
+    return changed
